@@ -193,6 +193,66 @@ func TestC18Exh(t *testing.T) {
 	pbt.SetExtra("TestC18Exh", "alphabet", len(all))
 }
 
+// TestC18Long: for every loop of the grammar (an alternative through which a rule derives
+// itself: list continuations, nested parentheses, ...) the statement that goes n times round
+// that loop, for several n up to thousands: "accepts every derivable statement" has no length
+// limit, and list productions are right-recursive, so the derivation depth grows with the list.
+func TestC18Long(t *testing.T) {
+	if pbt.ReplayPath() != "" {
+		pbt.Run(t, "C18", "TestC18Long", func(*rapid.T) c18Case { return c18Case{} }, checkC18Long)
+		return
+	}
+	c18Init()
+	shard, nsh := pbt.Shard()
+	rounds := []int{1, 2, 40, 700, 2500}
+	if pbt.Thorough() {
+		rounds = append(rounds, 300, 1100, 6000)
+	}
+	chains := c18Table.Chains(c18Min)
+	loops := c18Table.Loops(c18Min)
+	idx := 0
+	for _, l := range loops {
+		ch, ok := chains[l.Rule]
+		if !ok && l.Rule != "START" {
+			continue
+		}
+		for _, n := range rounds {
+			idx++
+			if idx%nsh != shard {
+				continue
+			}
+			kinds := c18Table.Pumped(ch, l, n, c18Min)
+			pbt.Eval(t, "C18", "TestC18Long", c18Case{Kinds: fromKinds(kinds), Src: fmt.Sprintf("loop %s/%d x%d", l.Rule, l.Alt, n)}, checkC18Long)
+		}
+	}
+	pbt.SetExtra("TestC18Long", "loops", len(loops))
+	pbt.SetExtra("TestC18Long", "rounds", rounds)
+}
+
+func checkC18Long(ctx *pbt.Ctx, c c18Case) error {
+	src := c.Src
+	c.Src = "long"
+	if err := checkC18(ctx, c); err != nil {
+		return fmt.Errorf("%s (%d tokens): %v", src, len(c.Kinds), truncErr(err, 600))
+	}
+	if len(c.Kinds) >= 100 {
+		ctx.Label("tokens>=100")
+	}
+	if len(c.Kinds) >= 4000 {
+		ctx.Label("tokens>=4000")
+	}
+	ctx.Nontrivial()
+	return nil
+}
+
+func truncErr(err error, n int) string {
+	s := err.Error()
+	if len(s) > n {
+		return s[:n/2] + " ... " + s[len(s)-n/2:]
+	}
+	return s
+}
+
 // exhaustive variant: realisable sequences are non-trivial (they exercise the parser)
 func checkC18Exh(ctx *pbt.Ctx, c c18Case) error {
 	c.Src = ""
